@@ -688,10 +688,20 @@ fn gen_random_t<T: RealNumber>(c: &mut Case) {
             (s.add(&Mat::randn(&mut c.rng, n, n).scale(t)), "random:nearly-symmetric")
         }
         6 => {
-            let r = c.rng.us(1, n);
-            let b = Mat::from_fn(n, r, |_, _| c.rng.int(-3, 3) as f64);
-            let cc = Mat::from_fn(r, n, |_, _| c.rng.int(-3, 3) as f64);
-            (b.mul(&cc), "random:low-rank(integer)")
+            // reducible: dense diagonal blocks of order 1..4, random coupling on one side (the QR
+            // iteration has to split the Hessenberg matrix in the middle)
+            let mut blk = vec![0usize; n];
+            let (mut i0, mut b) = (0, 0);
+            while i0 < n {
+                let w = c.rng.us(1, 4.min(n - i0));
+                for t in i0..i0 + w {
+                    blk[t] = b;
+                }
+                i0 += w;
+                b += 1;
+            }
+            let upper = c.rng.bool(0.5);
+            (Mat::from_fn(n, n, |i, j| if blk[i] == blk[j] || (blk[i] < blk[j]) == upper { c.rng.normal() } else { 0.0 }), "random:block-triangular")
         }
         7 => (Mat::from_fn(n, n, |i, j| if i <= j + 1 { c.rng.normal() } else { 0.0 }), "random:hessenberg"),
         _ => {
@@ -1081,7 +1091,7 @@ both!(gen_separated, gen_separated_t, 0.35);
 fn main() {
     runner::main(Spec {
         property: "C02",
-        rule: "cases are drawn per family from seeded structured generators, order n in 1..30 (biased to small n), f64 (65 %) or f32 (35 %). Symmetric solver evd(true): random (Gaussian, integer, sparse, banded, prescribed spectrum), repeated eigenvalues Q·diag(λ with multiplicities)·Qᵀ, diagonal, block-diagonal / tridiagonal with zero couplings (optionally symmetrically permuted), exactly rank-deficient, classical special matrices; every symmetric input is rescaled by 1 / 10^u / 2^u with the factor in [1e-12,1e12] and rounded to the width under test. General solver evd(false): random (Gaussian, integer, sparse, positive, nearly symmetric, low rank, Hessenberg, stochastic), triangular (incl. repeated diagonal, nilpotent, Jordan), companion (four layouts; x^n−1, x^n, Wilkinson roots, random roots/coefficients), rotation blocks Q·blockdiag(R(θ),±1)·Qᵀ, normal (Q·blockdiag·Qᵀ, symmetric, skew-symmetric, circulant, signed permutation, Haar orthogonal), badly balanced D·A0·D⁻¹ with D = powers of two up to 2^±20, and S·diag(λ)·S⁻¹ with cond(S) ≤ 10 and well separated real λ. A case is non-trivial when n ≥ 2; distinct = distinct hash of (solver, width, n, entries of A)",
+        rule: "cases are drawn per family from seeded structured generators, order n in 1..30 (biased to small n), f64 (65 %) or f32 (35 %). Symmetric solver evd(true): random (Gaussian, integer, sparse, banded, prescribed spectrum), repeated eigenvalues Q·diag(λ with multiplicities)·Qᵀ, diagonal, block-diagonal / tridiagonal with zero couplings (optionally symmetrically permuted), exactly rank-deficient, classical special matrices; every symmetric input is rescaled by 1 / 10^u / 2^u with the factor in [1e-12,1e12] and rounded to the width under test. General solver evd(false): random (Gaussian, integer, sparse, positive, nearly symmetric, block-triangular, Hessenberg, stochastic), triangular (incl. repeated diagonal, nilpotent, Jordan), companion (four layouts; x^n−1, x^n, Wilkinson roots, random roots/coefficients), rotation blocks Q·blockdiag(R(θ),±1)·Qᵀ, normal (Q·blockdiag·Qᵀ, symmetric, skew-symmetric, circulant, signed permutation, Haar orthogonal), badly balanced D·A0·D⁻¹ with D = powers of two up to 2^±20, and S·diag(λ)·S⁻¹ with cond(S) ≤ 10 and well separated real λ. A case is non-trivial when n ≥ 2; distinct = distinct hash of (solver, width, n, entries of A)",
         assumptions: vec![
             "oracle arithmetic is f64 with compensated sums on the already-rounded inputs",
             "symmetric: tau = 100·n·eps relative to ‖A‖_F (orthonormality: absolute); the comparison with the independent Jacobi reference uses 3·tau because it is implied by the residual and orthonormality oracles through Weyl's inequality",
